@@ -3,7 +3,9 @@
 # `timeout`: seconds (quick tier); thorough tier uses timeout_thorough or >= 2700.
 
 def H(harness, bound, covers=(), timeout=900, cost=1, crate="core", **kw):
-    d = dict(harness=harness, bound=bound, covers=list(covers), timeout=timeout, cost=cost, crate=crate)
+    # gb: estimated resident set of the CBMC process (the driver keeps the sum of running ones under its budget)
+    gb = 2 if cost <= 2 else (4 if cost <= 4 else (7 if cost <= 6 else 10))
+    d = dict(harness=harness, bound=bound, covers=list(covers), timeout=timeout, cost=cost, crate=crate, gb=gb)
     d.update(kw)
     return d
 
@@ -239,24 +241,24 @@ C08_W = [
 C13_Q = [
     H("c13_name_n2", "XmlName::try_from on every UTF-8 string of <=2 bytes vs the XML 1.1 Name production", ["name rejected"], crate="serde"),
     H("c13_name_n3", "XmlName::try_from on every UTF-8 string of <=3 bytes", ["long name accepted", "name rejected"], crate="serde", cost=2),
-    H("c13_esc_list_t0l0", "escape_list for every 1-byte ASCII value, target Text, level Full", ["something escaped"], crate="serde", cost=3),
-    H("c13_esc_list_t0l1", "escape_list for every 1-byte ASCII value, target Text, level Partial", ["something escaped"], crate="serde", cost=3),
-    H("c13_esc_list_t0l2", "escape_list for every 1-byte ASCII value, target Text, level Minimal", ["something escaped"], crate="serde", cost=3),
-    H("c13_esc_list_t1l0", "escape_list for every 1-byte ASCII value, target DoubleQAttr, level Full", ["something escaped"], crate="serde", cost=3),
-    H("c13_esc_list_t1l1", "escape_list for every 1-byte ASCII value, target DoubleQAttr, level Partial", ["something escaped"], crate="serde", cost=3),
-    H("c13_esc_list_t1l2", "escape_list for every 1-byte ASCII value, target DoubleQAttr, level Minimal", ["something escaped"], crate="serde", cost=3),
-    H("c13_esc_list_t2l0", "escape_list for every 1-byte ASCII value, target SingleQAttr, level Full", ["something escaped"], crate="serde", cost=3),
-    H("c13_esc_list_t2l1", "escape_list for every 1-byte ASCII value, target SingleQAttr, level Partial", ["something escaped"], crate="serde", cost=3),
-    H("c13_esc_list_t2l2", "escape_list for every 1-byte ASCII value, target SingleQAttr, level Minimal", ["something escaped"], crate="serde", cost=3),
-    H("c13_esc_item_t0l0", "escape_item for every 1-byte ASCII value, target Text, level Full", ["something escaped"], crate="serde", cost=3),
-    H("c13_esc_item_t0l1", "escape_item for every 1-byte ASCII value, target Text, level Partial", ["something escaped"], crate="serde", cost=3),
-    H("c13_esc_item_t0l2", "escape_item for every 1-byte ASCII value, target Text, level Minimal", ["something escaped"], crate="serde", cost=3),
-    H("c13_esc_item_t1l0", "escape_item for every 1-byte ASCII value, target DoubleQAttr, level Full", ["something escaped"], crate="serde", cost=3),
-    H("c13_esc_item_t1l1", "escape_item for every 1-byte ASCII value, target DoubleQAttr, level Partial", ["something escaped"], crate="serde", cost=3),
-    H("c13_esc_item_t1l2", "escape_item for every 1-byte ASCII value, target DoubleQAttr, level Minimal", ["something escaped"], crate="serde", cost=3),
-    H("c13_esc_item_t2l0", "escape_item for every 1-byte ASCII value, target SingleQAttr, level Full", ["something escaped"], crate="serde", cost=3),
-    H("c13_esc_item_t2l1", "escape_item for every 1-byte ASCII value, target SingleQAttr, level Partial", ["something escaped"], crate="serde", cost=3),
-    H("c13_esc_item_t2l2", "escape_item for every 1-byte ASCII value, target SingleQAttr, level Minimal", ["something escaped"], crate="serde", cost=3),
+    H("c13_esc_list_t0l0", "escape_list for every 1-byte ASCII value, target Text, level Full", ["something escaped"], crate="serde", cost=5),
+    H("c13_esc_list_t0l1", "escape_list for every 1-byte ASCII value, target Text, level Partial", ["something escaped"], crate="serde", cost=5),
+    H("c13_esc_list_t0l2", "escape_list for every 1-byte ASCII value, target Text, level Minimal", ["something escaped"], crate="serde", cost=5),
+    H("c13_esc_list_t1l0", "escape_list for every 1-byte ASCII value, target DoubleQAttr, level Full", ["something escaped"], crate="serde", cost=5),
+    H("c13_esc_list_t1l1", "escape_list for every 1-byte ASCII value, target DoubleQAttr, level Partial", ["something escaped"], crate="serde", cost=5),
+    H("c13_esc_list_t1l2", "escape_list for every 1-byte ASCII value, target DoubleQAttr, level Minimal", ["something escaped"], crate="serde", cost=5),
+    H("c13_esc_list_t2l0", "escape_list for every 1-byte ASCII value, target SingleQAttr, level Full", ["something escaped"], crate="serde", cost=5),
+    H("c13_esc_list_t2l1", "escape_list for every 1-byte ASCII value, target SingleQAttr, level Partial", ["something escaped"], crate="serde", cost=5),
+    H("c13_esc_list_t2l2", "escape_list for every 1-byte ASCII value, target SingleQAttr, level Minimal", ["something escaped"], crate="serde", cost=5),
+    H("c13_esc_item_t0l0", "escape_item for every 1-byte ASCII value, target Text, level Full", ["something escaped"], crate="serde", cost=5),
+    H("c13_esc_item_t0l1", "escape_item for every 1-byte ASCII value, target Text, level Partial", ["something escaped"], crate="serde", cost=5),
+    H("c13_esc_item_t0l2", "escape_item for every 1-byte ASCII value, target Text, level Minimal", ["something escaped"], crate="serde", cost=5),
+    H("c13_esc_item_t1l0", "escape_item for every 1-byte ASCII value, target DoubleQAttr, level Full", ["something escaped"], crate="serde", cost=5),
+    H("c13_esc_item_t1l1", "escape_item for every 1-byte ASCII value, target DoubleQAttr, level Partial", ["something escaped"], crate="serde", cost=5),
+    H("c13_esc_item_t1l2", "escape_item for every 1-byte ASCII value, target DoubleQAttr, level Minimal", ["something escaped"], crate="serde", cost=5),
+    H("c13_esc_item_t2l0", "escape_item for every 1-byte ASCII value, target SingleQAttr, level Full", ["something escaped"], crate="serde", cost=5),
+    H("c13_esc_item_t2l1", "escape_item for every 1-byte ASCII value, target SingleQAttr, level Partial", ["something escaped"], crate="serde", cost=5),
+    H("c13_esc_item_t2l2", "escape_item for every 1-byte ASCII value, target SingleQAttr, level Minimal", ["something escaped"], crate="serde", cost=5),
 ]
 C13_T = [
     H("c13_name_n4", "XmlName::try_from on every UTF-8 string of <=4 bytes", ["long name accepted"], crate="serde", cost=5),
@@ -265,7 +267,9 @@ C13_T = [
 ]
 C17_Q = [
     H("c17_detect", "encoding::detect_encoding on every input of <=4 bytes vs the documented table", ["utf-8 bom", "utf-16le signature"], crate="enc"),
-    H("c17_bom_n2", "Reader<&[u8]> (feature encoding) on EF BB BF + <=2 symbolic bytes: first event never contains the mark, decoder is UTF-8", ["text after bom"], crate="enc", cost=5),
+]
+C17_T = [
+    H("c17_bom_n2", "Reader<&[u8]> (feature encoding) on EF BB BF + <=2 symbolic bytes: first event never contains the mark, decoder is UTF-8", ["text after bom"], crate="enc", cost=9, timeout_thorough=5400, mem_gb=24),
 ]
 C07_T = [
     H("c07_s_k1", "deserialize struct S{a: String, b: Vec<String>} over scripted events: root + 1 solver-chosen inner event + tail, truncation anywhere", [], crate="serde", cost=9, timeout_thorough=5400, mem_gb=30),
@@ -296,7 +300,7 @@ PLAN = {
   "C18": {"quick": C18_Q, "thorough": C18_T, "labels": ["C18", "C02", "C01"], "evidence": {}},
   "C05": {"quick": C05_Q, "thorough": C05_T, "evidence": {}},
   "C13": {"quick": C13_Q, "thorough": C13_T, "evidence": {}},
-  "C17": {"quick": C17_Q, "thorough": [], "evidence": {}},
+  "C17": {"quick": C17_Q, "thorough": C17_T, "evidence": {}},
   "C10": {"quick": C10_Q, "thorough": C10_T, "evidence": {}},
   "C11": {"quick": C11_Q, "thorough": C11_T, "evidence": {}},
  },
